@@ -335,6 +335,33 @@ func CheckMaintenance(before, after *Dump, op Op, ret uint64, nowMs int64, prov 
 			}
 		}
 	}
+	// a withdrawal (Table.RemoveRoute) of a network, in whatever form it is
+	// written (host bits set, ...), leaves no route of that origin for the
+	// same canonical network behind: a stale entry would keep winning lookups
+	// although the reference set no longer contains it
+	var withdrawn []*Net
+	if op.Code == OpTRm && op.Net != nil {
+		withdrawn = append(withdrawn, op.Net)
+	}
+	if op.Code == OpWd {
+		for _, en := range op.Ents {
+			if en.Net != nil {
+				withdrawn = append(withdrawn, en.Net)
+			}
+		}
+	}
+	for _, wn := range withdrawn {
+		want := canonNetString(wn.IPNet())
+		if want == "" {
+			continue
+		}
+		for _, e := range after.All("cidr") {
+			if e.Net != nil && e.Origin == uint64(op.Origin) && canonNetString(e.Net) == want {
+				fails = append(fails, Failure{"withdrawn-route-still-stored", fmt.Sprintf("after the withdrawal of %v by origin %d the table still holds %s from that origin", wn.IPNet(), op.Origin, e.Key)})
+				break
+			}
+		}
+	}
 	// a route stored or replaced by this operation is learned through the
 	// delivering peer and is stamped with the current time
 	if d := Deliverer(op); d >= 0 {
@@ -465,4 +492,21 @@ func CheckMaintenance(before, after *Dump, op Op, ret uint64, nowMs int64, prov 
 		}
 	}
 	return fails
+}
+
+// canonNetString is the printed form of the masked network, re-parsed ("" when
+// the network has no canonical printed form).
+func canonNetString(n *net.IPNet) string {
+	if n == nil || n.IP == nil || n.Mask == nil {
+		return ""
+	}
+	ip := n.IP.Mask(n.Mask)
+	if ip == nil {
+		return ""
+	}
+	_, p, err := net.ParseCIDR((&net.IPNet{IP: ip, Mask: n.Mask}).String())
+	if err != nil {
+		return ""
+	}
+	return p.String()
 }
